@@ -347,6 +347,9 @@ func Generate(r *rand.Rand, profile string, concurrent bool, av Avoid) *Plan {
 			}
 		case OpConn:
 			o.A = r.IntN(8)
+			if r.IntN(4) == 0 {
+				o.A = -1 // the most recently created connection
+			}
 			if r.IntN(100) < w.connFail {
 				o.B = ConnFail
 			} else {
@@ -478,7 +481,7 @@ func Simplify(p *Plan) []*Plan {
 		if o.K == OpDone && o.B != OutOK && o.B != OutAppErr {
 			add(func(c *Plan) bool { c.Ops[i].B = OutAppErr; return true })
 		}
-		if o.A > 0 && (o.K == OpConn || o.K == OpDone || o.K == OpCancel) {
+		if o.A != 0 && (o.K == OpConn || o.K == OpDone || o.K == OpCancel) {
 			add(func(c *Plan) bool { c.Ops[i].A = 0; return true })
 		}
 		for ki, kv := range o.Keys {
